@@ -132,14 +132,20 @@ def replay_sanitized(name, dest_kind):
 
 
 def _snapshot(base, jail):
+    """everything outside the destination with its kind, permission bits and mtime - the scratch root itself included
+    (a chmod/utime that follows a link lands on a directory ABOVE the destination)"""
     import os
 
-    out = set()
+    def meta(p):
+        st = os.lstat(p)
+        return (p, oct(st.st_mode), st.st_mtime_ns)
+
+    out = {meta(base)}
     for root, dirs, files in os.walk(base, followlinks=False):
         for n_ in dirs + files:
             p = os.path.join(root, n_)
             if not (p + "/").startswith(jail + "/") and not jail.startswith(p):
-                out.add(p)
+                out.add(meta(p))
     return out
 
 
@@ -479,6 +485,8 @@ def replay_physical(entries):
     except Exception as e:  # noqa
         outcome = "raised %r" % (e,)
     after = _snapshot(base, jail)
+    os.chmod(base, 0o700)
     shutil.rmtree(base, ignore_errors=True)
     new = sorted(after - before)
-    return bool(new), "entries %s: %s; created outside the destination: %s" % (entries, outcome, [p.replace(base, "<base>") for p in new])
+    return bool(new), "entries %s: %s; created or changed outside the destination: %s" % (
+        entries, outcome, [(p.replace(base, "<base>"), m) for (p, m, t_) in new])
